@@ -150,6 +150,9 @@ Calls == {[fam |-> "call", route |-> "value", src |-> "CF", th |-> th, args |-> 
          \cup {[fam |-> "call", route |-> "otto", src |-> s, th |-> th, args |-> a] :
                   s \in {"CF", "O.m"}, th \in ThisVals \cup {[k |-> "gonil"]}, a \in ArgLists}
 
+CallErrs == {[fam |-> "callerr", route |-> r, what |-> w] : r \in {"value", "object", "otto"}, w \in {"throws", "notcallable"}}
+            \cup {[fam |-> "callerr", route |-> "otto", what |-> "unresolvable"]}
+
 (* ---- rendering of JavaScript values as source text parts ------------------ *)
 RECURSIVE JsParts(_)
 RECURSIVE JsItems(_, _)
@@ -186,6 +189,7 @@ Expect(B(_), c) ==        \* B(op) selects the instance: see Emit
                 THEN [base |-> base, isnan |-> B("IsNaNV")[v], toInt |-> ConvR(B("ToIntegerV")[v]), toFloat |-> ConvR(B("ToFloatV")[v]),
                       toStr |-> ConvR(B("ToStringVV")[v]), toBool |-> S!ToBooleanV(v)]
                 ELSE [base |-> base]
+      [] c.fam = "callerr" -> [err |-> S!CallErr(c.what)]
       [] c.fam = "call" ->
             IF c.route = "otto" /\ c.th.k = "gonil" /\ c.src = "O.m"
             THEN [S!CallObs(c.th, c.args) EXCEPT !.th = [k |-> "O"]]       \* otto.go Otto.Call: a nil this takes the this of the call expression
@@ -230,7 +234,7 @@ Js(c) == IF c.fam = "j2g" THEN JsParts(c.v) ELSE <<>>
 (* doubles, random strings) - the specification still computes every         *)
 (* expectation.                                                              *)
 K == 64
-AllCases == G2J \cup J2G \cup Calls
+AllCases == G2J \cup J2G \cup Calls \cup CallErrs
 FileCases == ndJsonDeserialize("c15cases.ndjson")
 CaseSeq == IF Src = "file" THEN FileCases ELSE SetToSeq(AllCases)
 None == [fam |-> "none"]
